@@ -27,9 +27,9 @@ from fractions import Fraction
 import numpy as np
 
 PROP = 'C01'
-TARGETS = ['T20', 'T21', 'T22', 'T23', 'T24', 'T8', 'T1', 'T1b', 'T4', 'T12']
+TARGETS = ['T20', 'T21', 'T22', 'T23', 'T24', 'T25', 'T8', 'T1', 'T1b', 'T4', 'T12', 'T6', 'T7b']
 LEAN_MODULES = ['HdVerif.Props.C01']
-MODEL_MODULES = ['HdVerif.Model.SegEncode']
+MODEL_MODULES = ['HdVerif.Model.SegEncode', 'HdVerif.Model.SegFrames']
 NAMESPACE = 'HdVerif.C01'
 DRIVER = 'Drivers/C01.lean'
 RULE = ('one case = one Segmentation built from a generated (source kind and geometry, planes, rows, cols, plane order, type, '
@@ -628,7 +628,7 @@ def _source_positions(c, src):
     return None
 
 
-def _entry_points(ctx, obj, path, c, src, ids, exp, alt, desc, hist):
+def _entry_points(ctx, obj, path, c, src, ids, exp, alt, desc, hist, reqs=None, pending=None, margs=None):
     """The same stored frames through the other reading entry points: frame by frame (`get_stored_frame`, `pixel_array`),
     by dimension index values, as a volume.  Every answer is compared with the expectation computed from the input mask;
     the (segment, plane) of a frame and its dimension index are read with pydicom from the per-frame functional groups."""
@@ -704,6 +704,10 @@ def _entry_points(ctx, obj, path, c, src, ids, exp, alt, desc, hist):
         if not same(got, exp[order], alt[order]):
             ctx.fail(dict(case, request='by-dimension-index', order=order), 'read by dimension index values differs from the mask',
                      site='read-dimension-index')
+        if reqs is not None and path == 'memory' and np.shape(got) == exp[order].shape:
+            reqs.append(('readDim', dict(margs, request=[k_of[p] for p in order])))
+            pending.append((dict(case, request='by-dimension-index', order=order), 'read', None,
+                            np.asarray(got).astype(np.int64).transpose(0, 3, 1, 2).reshape(len(order), -1, R * C).tolist()))
     except Exception as e:  # noqa: BLE001
         ctx.fail(dict(case, request='by-dimension-index'), f'read by dimension index values failed: {type(e).__name__}: {e}'[:300],
                  site='read-dimension-index')
@@ -990,7 +994,7 @@ def run_case(ctx, c, reqs, pending, paths=('memory', 'eager', 'lazy')):
             except Exception:  # noqa: BLE001
                 pass
         if path == 'memory' or (path in ('eager', 'lazy') and (c['idx'] + len(path)) % 3 == 0):
-            _entry_points(ctx, obj, path, c, src, ids, exp, alt, desc, hist)
+            _entry_points(ctx, obj, path, c, src, ids, exp, alt, desc, hist, reqs, pending, margs)
     objs.clear()
     if tmpdir is not None:
         tmpdir.cleanup()
@@ -1062,6 +1066,10 @@ def run_case(ctx, c, reqs, pending, paths=('memory', 'eager', 'lazy')):
             pending.append((desc, 'build', {'nframes': nf, 'bits': int(ds.BitsAllocated), 'overlap': str(ds.SegmentsOverlap),
                                             'keys': sorted([(-1 if s is None else s), p] for s, p in keys),
                                             'order': [[(-1 if s is None else s), p] for s, p in keys],
+                                            # DimensionIndexValues per (segment, plane) -- stacks of planes in a frame of reference
+                                            'dims': ({f'{-1 if s is None else s},{p}': _div(it) for (s, p), it in
+                                                      zip(keys, ds.PerFrameFunctionalGroupsSequence)}
+                                                     if c['source'] != 'single' and len(keys) == nf else None),
                                             'pd': list(pd) if c['ts'] in NATIVE else None,
                                             'frames': {f'{-1 if s is None else s},{p}': px[i].astype(np.int64).reshape(-1).tolist()
                                                        for i, (s, p) in enumerate(keys)}}))
@@ -1221,6 +1229,13 @@ def _compare(ctx, reqs, pending, escalate=True):
             if impl['pd'] is not None and m.get('pd') != impl['pd']:
                 ctx.disagree('L1', case, impl['pd'], m.get('pd'), 'PixelData bytes')
                 continue
+            if impl.get('dims') is not None:
+                mdims = {f'{s},{p}': dv for (s, p, _), dv in zip(m['frames'], m.get('dims') or [])}
+                if mdims != impl['dims']:
+                    bad = [k for k in impl['dims'] if mdims.get(k) != impl['dims'][k]][:1]
+                    ctx.disagree('L1', case, {k: impl['dims'][k] for k in bad}, {k: mdims.get(k) for k in bad},
+                                 'DimensionIndexValues of a stored frame')
+                    continue
             if [[s, p] for s, p, _ in m['frames']] != impl['order']:
                 ctx.disagree('L2', case, impl['order'], [[s, p] for s, p, _ in m['frames']], 'frame (loop) order')
 
@@ -1553,11 +1568,16 @@ def run_tiled(ctx, c, reqs, pending):
         except Exception as e:  # noqa: BLE001
             ctx.fail(dict(desc, path='pixel_array'), f'pixel_array / get_stored_frame failed: {type(e).__name__}: {e}'[:300], site='pixel_array')
         # model: the tiles are the planes of the mask (L0 read-back, L1 frames / PixelData)
-        tmask = np.stack([_cut(keep[0] if c['mode'] == 'tpm' else None, r0, c0, tr, tc) for (r0, c0) in grid]) if c['mode'] == 'tpm' \
-            else np.array(keep)
-        margs = model_args(dict(c, rows=tr, cols=tc, planes=len(grid), src_order=list(range(len(grid))), spacing=-1.0), tmask)
-        margs['order'] = order
-        reqs.append(('build', dict(margs, keys=[[(-1 if s is None else s), k] for s, k in keys])))
+        if c['mode'] == 'tpm':
+            # the model is handed the matrix and cuts the tiles itself (`buildTiled` / `tileMask`)
+            margs = model_args(dict(c, rows=tr, cols=tc, planes=1, src_order=[0]), np.array(keep))
+            margs.update(R=R, C=C)
+            fn = 'buildTiled'
+        else:
+            margs = model_args(dict(c, rows=tr, cols=tc, planes=len(grid), src_order=list(range(len(grid))), spacing=-1.0), np.array(keep))
+            margs['order'] = order
+            fn = 'build'
+        reqs.append((fn, dict(margs, keys=[[(-1 if s is None else s), k] for s, k in keys])))
         pending.append((desc, 'build', {'nframes': nf, 'bits': int(d2.BitsAllocated), 'overlap': str(d2.SegmentsOverlap),
                                         'keys': sorted([(-1 if s is None else s), k] for s, k in keys),
                                         'order': [[(-1 if s is None else s), k] for s, k in keys],
